@@ -22,6 +22,8 @@ CHECKS = {
     "C10": {"pkg": "verifx/c10", "run": "TestC10", "harness": EXPORTS2, "level": "model_checking", "shards": 16, "gomaxprocs": 2,
             "instrument": ["balloon/balloon.go", "balloon/hyper/tree.go", "balloon/hyper/batch_cache.go", "consensus/cluster.go@sync"], "quick": {"budget_s": 600}, "thorough": {"budget_s": 3000},
             "extra": [{"run": "TestC10Race", "race": True, "gomaxprocs": 8}]},
+    "C17": {"pkg": "verifx/c17", "run": "TestC17", "harness": EXPORTS2, "level": "model_checking", "shards": 16, "gomaxprocs": 2,
+            "instrument": ["server/sender.go", "gossip/bus.go"], "quick": {"budget_s": 400}, "thorough": {"budget_s": 3000}},
     "C12": {"pkg": "verifx/c12", "run": "TestC12", "harness": EXPORTS, "level": "exploration"},
     "C14": {"pkg": "verifx/c14", "run": "TestC14", "harness": [], "level": "exploration"},
     "C15": {"pkg": "verifx/c15", "run": "TestC15", "harness": EXPORTS2, "level": "exploration"},
